@@ -77,6 +77,7 @@ type VC struct {
 	sums      map[string][]*sumInst
 	frameProps []string
 	sumCache  map[string]*sumInst
+	winNames  map[string]string // ground array windows already named
 }
 
 func Key(pkg, name string) string { return pkg + "::" + name }
@@ -381,15 +382,25 @@ func (vc *VC) load(s *State, t types.Type, obj, off Term) Term {
 			}
 			h := vc.heap(s, k)
 			w := Term{fmt.Sprintf("(%s %s %s)", fn, Select(h, obj).S, off.S), srt}
-			if !strings.Contains(w.S, "q_") && !vc.heapDecl["ax:"+w.S] {
+			if !strings.Contains(w.S, "q_") {
 				// cell contents of a ground window (quantifying over the array argument itself
-				// sends the solvers into model-based instantiation over array sorts)
-				vc.heapDecl["ax:"+w.S] = true
+				// sends the solvers into model-based instantiation over array sorts).  The window
+				// gets a name, because heap terms may contain ite, which patterns must not.
+				if name, ok := vc.winNames[w.S]; ok {
+					return Term{name, srt}
+				}
+				if vc.winNames == nil {
+					vc.winNames = map[string]string{}
+				}
+				nm := vc.declare("win", srt)
+				vc.winNames[w.S] = nm.S
+				vc.cmd(fmt.Sprintf("(assert (= %s %s))", nm.S, w.S))
 				z := vc.tt.zero(u.Elem())
 				vc.nfresh++
 				i := fmt.Sprintf("wi_%d", vc.nfresh)
 				vc.cmd(fmt.Sprintf("(assert (forall ((%s Int)) (! (= (select %s %s) (ite (and (<= 0 %s) (< %s %d)) (select %s (+ %s %s)) %s)) :pattern ((select %s %s)))))",
-					i, w.S, i, i, i, u.Len(), Select(h, obj).S, off.S, i, z.S, w.S, i))
+					i, nm.S, i, i, i, u.Len(), Select(h, obj).S, off.S, i, z.S, nm.S, i))
+				return nm
 			}
 			return w
 		}
